@@ -223,3 +223,32 @@ package nbio
 //@   loop 1
 //@     invariant holds(c.mux) && !c.closed && Wired(c) && isStream(c) && QueueInv(c) && c.gAcc == kSent[c.fd] + pend(c)
 //@     invariant maxw(c) > 0 ==> c.left <= maxw(c)
+
+//@ func (*Conn).Writev
+//@   props C01 C17
+//@   safety index slice nil div assert panic make lock
+//@   requires Wired(c) && isStream(c) && !holds(c.mux)
+//@   ensures ret: result1 == nil ==> result0 == total(in)                                  // prop C01
+//@   ensures unlocked: !holds(c.mux)                                                        // prop C01
+//@   assigns everything
+//@   at lock#1 assert hint: sumlen(row(in), off(in), 0) == 0
+//@   at unlock#3 ghost { c.gAcc = c.gAcc + ite(err == nil, n, 0) }
+
+// ---- Sendfile: what the call reports as accepted is what it handed to the kernel plus what it queued
+//@ ghost Conn.gSnap : Int
+//@ func (*Conn).Sendfile
+//@   props C01 C17
+//@   safety index slice nil div assert panic make lock
+//@   requires Wired(c) && isStream(c) && !holds(c.mux)
+//@   ensures ret: result1 == nil && f != nil ==> result0 == c.gAcc - c.gSnap               // prop C01
+//@   ensures errret: result1 != nil && !c.closed ==> result0 == c.gAcc - c.gSnap            // prop C01
+//@   ensures unlocked: !holds(c.mux)                                                        // prop C01
+//@   assigns everything
+//@   at lock#1 ghost { c.gSnap = c.gAcc }
+//@   at call:newToWriteFile#1 ghost { c.gAcc = c.gAcc + remain }
+//@   at call:Sendfile#1 ghost { c.gAcc = c.gAcc + ite(written > 0, written, 0) }
+//@   at call:newToWriteFile#2 ghost { c.gAcc = c.gAcc + remain }
+//@   loop 1
+//@     invariant holds(c.mux) && !c.closed && Wired(c) && isStream(c) && QueueInv(c) && c.gAcc == kSent[c.fd] + pend(c)
+//@     invariant dst == c.fd && remain >= 0 && total - remain == c.gAcc - c.gSnap && len(c.writeList) == 0
+//@     invariant maxw(c) > 0 ==> c.left <= maxw(c)
